@@ -188,6 +188,20 @@ pub fn tx_alphabet(n: &Node, cfg: &AlphaCfg) -> Vec<(String, Transaction, bool)>
             }
         }
     }
+    if cfg.stakes {
+        // a consistent stake with a MEL change output (first output: all of a SYM coin, staked for epochs cur+1 .. cur+2)
+        if let (Some(sc), Some(mc)) = (coins_of(m, Denom::Sym, 1).first(), coins_of(m, Denom::Mel, 8).last()) {
+            let cur = m.height / 200_000;
+            let t = tx_t(
+                TxKind::Stake,
+                vec![sc.0, mc.0],
+                vec![out_t(sc.1.coin_data.value.0, Denom::Sym), out_t(mc.1.coin_data.value.0, Denom::Mel)],
+                0,
+                stake_doc_bytes(1, cur + 1, cur + 2, sc.1.coin_data.value.0),
+            );
+            acc.push((format!("stake-with-change({})", short(&sc.0)), t, true));
+        }
+    }
     if cfg.faucets {
         // two distinct faucets; each can be applied once per chain
         for j in 0..2u8 {
